@@ -84,6 +84,16 @@ def plan(tier, seed):
         for st in ("dense", "csc"):
             for e in (0, -3, -6, -9, -12):
                 cases.append({"fam": "scale", "cls": cls, "storage": st, "exp": e, "r": 0})
+    # CG runs that need more iterations than the restart interval (50) of the explicit residual recomputation
+    for r in range(2 if tier == "quick" else 12):
+        for cls in ("spd", "hpd"):
+            for pc in ("Preconditioner", "DampedJacobi"):
+                cases.append({"fam": "cglong", "cls": cls, "pc": pc, "storage": ["dense", "csc"][r % 2] if pc == "Preconditioner" else "csc", "r": r})
+    # symmetric indefinite saddle-point matrices with a tiny regularisation of the same sign on the diagonal: [[K, B^T], [B, eps I]]
+    for r in range(3 if tier == "quick" else 30):
+        for cfg, st in (("SolverSparseLU", "csc"), ("SolverSparseLU", "csr"), ("SolverDenseLDL", "dense"), ("SolverDenseLU", "dense"),
+                        ("auto", "csc"), ("auto", "dense"), ("LDAWrapper:SolverSparseLU", "csc")):
+            cases.append({"fam": "saddle", "cfg": cfg, "storage": st, "r": r})
     return cases
 
 
@@ -300,5 +310,45 @@ def run_scale(case, ctx):
             "obs": {"solver": type(solver).__name__, "scale": 10.0 ** case["exp"], "judged": j}}
 
 
+def run_cglong(case, ctx):
+    import pymoto.solvers as S
+    rng = ctx.rng("cglong", case["cls"], case["pc"], case["storage"], case["r"])
+    n = int(rng.integers(120, 220))
+    cond = 10 ** rng.uniform(3.0, 4.0)
+    A = matgen.make(rng, case["cls"], n, cond=cond, scale=10 ** rng.uniform(-2, 2))
+    As = matgen.to_storage(A, case["storage"])
+    pc = S.Preconditioner() if case["pc"] == "Preconditioner" else S.DampedJacobi(w=0.8)
+    solver = S.CG(preconditioner=pc, tol=1e-9, maxit=5000)
+    with warnings.catch_warnings():
+        warnings.simplefilter("ignore")
+        solver.update(As)
+    j = judge(ctx, solver, As, cond, solver.tol, True, rng, f"CG:{case['pc']}:long")
+    ctx.count("long_cg_solves", j)
+    return {"key": f"cglong/{case['cls']}/{case['pc']}/{case['storage']}/{case['r']}", "nontrivial": True,
+            "obs": {"n": n, "cond": cond, "judged": j}}
+
+
+def run_saddle(case, ctx):
+    rng = ctx.rng("saddle", case["cfg"], case["storage"], case["r"])
+    n1, n2 = int(rng.integers(5, 14)), int(rng.integers(1, 5))
+    K = matgen.make(rng, "spd", n1, cond=10 ** rng.uniform(0.5, 2))
+    B = rng.standard_normal((n2, n1))
+    eps = 10.0 ** rng.uniform(-12, -8)
+    A = np.block([[K, B.T], [B, eps * np.eye(n2)]])
+    As = matgen.to_storage(A, case["storage"])
+    cond = float(np.linalg.cond(A))
+    with warnings.catch_warnings():
+        warnings.simplefilter("ignore")
+        solver = make_solver(case["cfg"], "sym", As)
+        solver.update(As)
+    it = getattr(solver, "tol", None) if type(solver).__name__ == "LDAWrapper" else None
+    slu = type(solver).__name__ == "SolverSparseLU" or case["cfg"] == "LDAWrapper:SolverSparseLU" or \
+        (case["cfg"] == "auto" and case["storage"] != "dense")
+    j = judge(ctx, solver, As, cond, it, True, rng, case["cfg"] + "@saddle", slu)
+    ctx.count("saddle_point_solves", j)
+    return {"key": f"saddle/{case['cfg']}/{case['storage']}/{case['r']}", "nontrivial": True,
+            "obs": {"n": n1 + n2, "cond": cond, "eps": eps, "solver": type(solver).__name__, "judged": j}}
+
+
 def run_case(case, ctx):
-    return {"table": run_table, "mg": run_mg, "scale": run_scale}[case["fam"]](case, ctx)
+    return {"table": run_table, "mg": run_mg, "scale": run_scale, "cglong": run_cglong, "saddle": run_saddle}[case["fam"]](case, ctx)
